@@ -167,7 +167,7 @@ fn hermite_unique<S: Sc>(seed: i64, n: usize) {
     }
 }
 
-fn lagrange_complex<S: Sc>(seed: i64, n: usize) {
+fn lagrange_complex<S: Sc>(seed: i64, n: usize, imaginary_lead: bool) {
     let mut g = Lcg::new(seed * 11 + 5);
     let mut zs: Vec<(f64, f64)> = vec![];
     while zs.len() < n {
@@ -177,10 +177,17 @@ fn lagrange_complex<S: Sc>(seed: i64, n: usize) {
         }
     }
     let xs: Vec<Complex<S>> = zs.iter().map(|(a, b)| Complex::new(S::lit(*a), S::lit(*b))).collect();
-    let cr = inputs::<S>("cr", n, -YB, YB);
+    let mut cr = inputs::<S>("cr", n, -YB, YB);
     let ci = inputs::<S>("ci", n, -YB, YB);
-    for ck in cr.iter() {
-        S::assume(S::b_ge(ck.sabs(), S::lit(0.05)));
+    for (k, ck) in cr.iter().enumerate() {
+        if !(imaginary_lead && k + 1 == n) {
+            S::assume(S::b_ge(ck.sabs(), S::lit(0.05)));
+        }
+    }
+    if imaginary_lead {
+        // a purely imaginary leading coefficient is still a leading coefficient
+        cr[n - 1] = S::lit(0.0);
+        S::assume(S::b_ge(ci[n - 1].sabs(), S::lit(0.05)));
     }
     // values of the symbolic complex polynomial at the concrete complex nodes (linear in cr, ci)
     let mut yr: Vec<S> = vec![];
@@ -207,7 +214,7 @@ fn lagrange_complex<S: Sc>(seed: i64, n: usize) {
         }
     };
     S::reach("lagrange-complex");
-    S::prove("complex-lagrange-degree", S::b_const(p.order() <= n - 1));
+    S::prove("complex-lagrange-degree", S::b_const(p.order() == n - 1));
     for i in 0..n {
         let v = p.evaluate(xs[i]);
         S::prove("complex-lagrange-reproduces-value", S::b_and(S::b_close(v.re, yr[i], S::lit(1e-6)), S::b_close(v.im, yi[i], S::lit(1e-6))));
@@ -267,7 +274,9 @@ pub fn run(pr: &mut PropRun, t: &Tier) {
         crate::job!(jobs, cfg, lagrange_data, 0i64, n, true);
     }
     let cfg = t.cfg("C15:lagrange-complex(n=3)");
-    crate::job!(jobs, cfg, lagrange_complex, t.seed, 3usize);
+    crate::job!(jobs, cfg, lagrange_complex, t.seed, 3usize, false);
+    let cfg = t.cfg("C15:lagrange-complex(n=3,imaginary-leading-coefficient)");
+    crate::job!(jobs, cfg, lagrange_complex, t.seed, 3usize, true);
     super::run_jobs(pr, jobs, t.threads);
     run_h!(pr, t.cfg("C15:mismatched-lengths"), mismatched);
 }
